@@ -34,7 +34,8 @@
 (*                                                                         *)
 (* A CASE (JSON friendly: records and sequences only):                     *)
 (*  [tasks |-> << [id, host, grp (BOOLEAN: under the aggregator role       *)
-(*                 "grp", else directly under the root), mode] >>,         *)
+(*                 "grp", else not), mode, path (role path below the       *)
+(*                 workflow root, for rendering only)] >>,                 *)
 (*   inb   |-> << [lvl, name, addr ("tcp"|"ipc"), tr, alias (""=none),     *)
 (*                 xt (""|"tcp"|"ipc": explicit bind target)] >>,          *)
 (*   outb  |-> << [lvl, name, tk ("path"|"alias"|"xtcp"|"xipc"|"xupper"),   *)
@@ -280,11 +281,13 @@ PropViol(name, c, g, obs, out) ==
 ---------------------------------------------------------------------------
 \* the model applied to itself with a symbolic allocation (ports 9000, 9001, ... in list order per HOST
 \* as the offers of one host are shared; unique IPC paths): which properties does the described code break?
-AllIds == {"t1", "t2", "t3"}
+\* task ids of the catalogue: t1..t3 (plain workflows), s<i>/r<i> (binder/connector of iteration i of an iterator)
+IdSeq == <<"t1", "t2", "t3", "s1", "r1", "s2", "r2", "s3", "r3">>
+AllIds == SeqSet(IdSeq)
 SymGrant(c) ==
   \* tasks are launched in any order; give each task of a host a disjoint block of ports
   [k \in AllIds |-> IF k \in TaskIds(c)
-                      THEN LET base == 9000 + 10 * (CHOOSE n \in 1..3 : "t" \o ToString(n) = k)
+                      THEN LET base == 9000 + 10 * (CHOOSE n \in 1..Len(IdSeq) : IdSeq[n] = k)
                            IN [i \in 1..NeedPorts(c, k) |-> base + i - 1]
                       ELSE <<>>]
 SymIpc == [x \in AllIds \X {"a", "b"} |-> "ipc://@o2ipc-" \o x[1] \o "-" \o x[2]]
